@@ -714,5 +714,11 @@ class Producer(object):
             # CancelledError reported as an unhandled error - but keep it as
             # the Deferred's result: an errback eating it here would make the
             # send look successful (None) to callbacks added later.
-            if d._debugInfo is not None:
-                d._debugInfo.failResult = None
+            # Twisted has no public API to mark a Deferred's failure as
+            # handled without consuming it, so this clears the record its
+            # unhandled-error report is made from (private: `_debugInfo`).
+            # Should a Twisted release not have it, the failure is simply
+            # reported like any other unhandled one; the result stays truthful.
+            debug_info = getattr(d, "_debugInfo", None)
+            if debug_info is not None and hasattr(debug_info, "failResult"):
+                debug_info.failResult = None
